@@ -3,8 +3,10 @@ package c10
 import (
 	"bytes"
 	"context"
+	"errors"
 	"fmt"
 	"io"
+	"net/url"
 	"os"
 	"path/filepath"
 	"runtime"
@@ -18,12 +20,83 @@ import (
 	"github.com/folbricht/desync"
 	"github.com/hanwen/go-fuse/v2/fs"
 	"github.com/hanwen/go-fuse/v2/fuse"
+	pkgerrors "github.com/pkg/errors"
 
 	"verifharness/internal/dx"
 	"verifharness/internal/gen"
 	"verifharness/internal/hx"
 	"verifharness/internal/ref"
 )
+
+// ---------------------------------------------------------------- fault error kinds
+
+// Fault kinds: what an injected GetChunk failure looks like to the code under test.
+const (
+	fkPlain    = iota // an error that wraps nothing special
+	fkFmtEOF          // fmt.Errorf("...: %w", io.EOF)
+	fkPkgEOF          // pkg/errors.Wrap(io.EOF, ...)
+	fkURLEOF          // pkg/errors.Wrap(&url.Error{Err: io.EOF}, url): what RemoteHTTP returns when the server drops the connection
+	fkUnexpEOF        // io.ErrUnexpectedEOF
+	fkMissing         // desync.ChunkMissing
+	fkInvalid         // desync.ChunkInvalid
+	fkCount
+)
+
+func faultErr(k int, store string, n int) error {
+	if k < 0 {
+		k = -k
+	}
+	switch k % fkCount {
+	case fkFmtEOF:
+		return fmt.Errorf("Get \"http://store.example/chunk\": %w", io.EOF)
+	case fkPkgEOF:
+		return pkgerrors.Wrap(io.EOF, "store")
+	case fkURLEOF:
+		u := "http://store.example/0000/chunk.cacnk"
+		return pkgerrors.Wrap(&url.Error{Op: "Get", URL: u, Err: io.EOF}, u)
+	case fkUnexpEOF:
+		return io.ErrUnexpectedEOF
+	case fkMissing:
+		return desync.ChunkMissing{}
+	case fkInvalid:
+		return desync.ChunkInvalid{}
+	}
+	return fmt.Errorf("%s get %d: %w", store, n, dx.ErrInjected)
+}
+
+// errLabel classifies a store error by looking at it the way a caller could.
+func errLabel(err error) string {
+	var cm desync.ChunkMissing
+	var ci desync.ChunkInvalid
+	var ue *url.Error
+	switch {
+	case errors.As(err, &cm):
+		return "chunk-missing"
+	case errors.As(err, &ci):
+		return "chunk-invalid"
+	case errors.Is(err, io.ErrUnexpectedEOF):
+		return "unexpected-EOF"
+	case err == io.EOF:
+		return "bare-EOF"
+	case errors.Is(err, io.EOF) && errors.As(err, &ue):
+		return "url-wraps-EOF"
+	case errors.Is(err, io.EOF):
+		if _, ok := err.(interface{ Cause() error }); ok {
+			return "pkg-wraps-EOF"
+		}
+		return "fmt-wraps-EOF"
+	}
+	return "plain"
+}
+
+func wrapsEOF(label string) bool {
+	return label == "url-wraps-EOF" || label == "pkg-wraps-EOF" || label == "fmt-wraps-EOF"
+}
+
+type failRec struct {
+	id    desync.ChunkID
+	label string
+}
 
 // ---------------------------------------------------------------- store wrapper
 
@@ -41,6 +114,7 @@ type trackStore struct {
 	failedTotal int
 	started     map[desync.ChunkID]int // GetChunk calls per ID since the instance started
 	failed      map[desync.ChunkID]int // failed GetChunk calls per ID since the instance started
+	faillog     []failRec              // every failed GetChunk of the case, in order
 }
 
 func (s *trackStore) GetChunk(id desync.ChunkID) (*desync.Chunk, error) {
@@ -58,9 +132,22 @@ func (s *trackStore) GetChunk(id desync.ChunkID) (*desync.Chunk, error) {
 	} else {
 		s.failed[id]++
 		s.failedTotal++
+		s.faillog = append(s.faillog, failRec{id, errLabel(err)})
 	}
 	s.mu.Unlock()
 	return c, err
+}
+
+func (s *trackStore) failMark() int {
+	s.mu.Lock()
+	defer s.mu.Unlock()
+	return len(s.faillog)
+}
+
+func (s *trackStore) failsSince(mark int) []failRec {
+	s.mu.Lock()
+	defer s.mu.Unlock()
+	return append([]failRec(nil), s.faillog[mark:]...)
 }
 
 func (s *trackStore) counts() (total, failed int) {
@@ -160,6 +247,9 @@ func newWorld(c Case, o *hx.Outcome) *world {
 		if n >= 1 {
 			ms.FailAt("get", n)
 		}
+	}
+	if kinds := c.FaultKinds; len(kinds) > 0 {
+		ms.FaultErr = func(kind string, n int) error { return faultErr(kinds[n%len(kinds)], ms.Name, n) }
 	}
 	w.store = &trackStore{MemStore: ms, w: w, started: map[desync.ChunkID]int{}, failed: map[desync.ChunkID]int{}}
 	w.dir = hx.Scratch("c10")
@@ -302,8 +392,9 @@ func (w *world) doRead(rd Read) (res result) {
 }
 
 // judge applies the read oracle. before/after are the failed-fetch counts per chunk ID of
-// this instance taken before the read (batch) started and after it returned.
-func (w *world) judge(tag string, rd Read, res result, before, after map[desync.ChunkID]int) {
+// this instance taken before the read (batch) started and after it returned; during lists
+// the fetches that failed while a sequential read ran (nil for reads of a concurrent batch).
+func (w *world) judge(tag string, rd Read, res result, before, after map[desync.ChunkID]int, during []failRec) {
 	if res.skipped {
 		return
 	}
@@ -376,6 +467,38 @@ func (w *world) judge(tag string, rd Read, res result, before, after map[desync.
 	if res.node {
 		isErr = res.errno != 0
 	}
+	// fetches of chunks in the range that failed while this read ran, by error kind
+	var failedNow []string
+	if hi > lo {
+		via := "handle-read"
+		if res.node {
+			via = "node-read"
+		}
+		for _, f := range during {
+			for i := first; i <= last && i < w.nch; i++ {
+				if w.idx.Chunks[i].ID != f.id || w.isNull[i] {
+					continue
+				}
+				failedNow = append(failedNow, f.label)
+				w.class(via + ":fetch-failed:" + f.label)
+				if wrapsEOF(f.label) {
+					w.class(via + ":fetch-failed:wraps-EOF")
+				}
+				if isErr {
+					w.class(via + ":fetch-failed:reported")
+				}
+				break
+			}
+		}
+		if len(during) == 0 { // concurrent batch: only the counts are known
+			for i := first; i <= last && i < w.nch; i++ {
+				if id := w.idx.Chunks[i].ID; !w.isNull[i] && after[id] > before[id] {
+					failedNow = append(failedNow, "during-batch")
+					break
+				}
+			}
+		}
+	}
 	if isErr {
 		w.class("read:error")
 		return
@@ -385,7 +508,14 @@ func (w *world) judge(tag string, rd Read, res result, before, after map[desync.
 	if res.node {
 		kind = "node"
 	}
-	if res.n != len(want) {
+	switch {
+	case res.n < len(want) && len(failedNow) > 0:
+		// the range lies inside the blob, a fetch for it failed, and the answer is a short
+		// success: the caller (for the node: the kernel, which zero-fills the page) takes it
+		// for the end of the file
+		w.fail("C10:"+kind+":fetch-failure-answered-short-ok", "%s off=%d len=%d on %d bytes: a fetch for this range failed (%v) but the read was answered %s; the range holds %d bytes inside the blob",
+			tag, rd.Off, rd.Len, L, failedNow, res, len(want))
+	case res.n != len(want):
 		w.fail("C10:"+kind+":wrong-count", "%s off=%d len=%d on %d bytes: returned n=%d (%s), the range holds %d bytes", tag, rd.Off, rd.Len, L, res.n, res, len(want))
 	}
 	if !res.node && clipped && res.err != io.EOF {
@@ -442,8 +572,9 @@ func (w *world) read(tag string, rd Read) {
 		return
 	}
 	before := w.store.failedSnapshot()
+	mark := w.store.failMark()
 	res := w.doRead(rd)
-	w.judge(tag, rd, res, before, w.store.failedSnapshot())
+	w.judge(tag, rd, res, before, w.store.failedSnapshot(), w.store.failsSince(mark))
 	w.stats["reads"]++
 }
 
@@ -538,7 +669,7 @@ func (w *world) conc(op Op) {
 	w.hot.Store(wasHot)
 	after := w.store.failedSnapshot()
 	for i := range reads {
-		w.judge(fmt.Sprintf("conc[g%d]", reads[i].G), reads[i], results[i], before, after)
+		w.judge(fmt.Sprintf("conc[g%d]", reads[i].G), reads[i], results[i], before, after, nil)
 	}
 	w.stats["conc-reads"] += len(reads)
 }
@@ -1021,6 +1152,12 @@ func (w *world) finish() {
 	missing = failedTotal - injected
 	if injected > 0 {
 		w.class("fault-delivered")
+	}
+	for _, f := range w.store.failsSince(0) {
+		w.class("fault-kind:" + f.label)
+		if wrapsEOF(f.label) {
+			w.class("fault-kind:wraps-EOF")
+		}
 	}
 	if missing > 0 {
 		w.class("chunk-missing")
